@@ -19,6 +19,7 @@ from props import c12
 
 LEVEL = "other"
 EXPECT = common.VERIF + "/expect/map_ranges.json"
+EXPECT_AMBIENT = common.VERIF + "/expect/ambient_sources.json"
 
 # classification -> does the iteration order stay inside the loop?
 HARMLESS = {"collect-then-sorted", "insert-only", "lookup-only", "order-irrelevant-reduction"}
@@ -61,8 +62,24 @@ def run(r):
                            "covered_by": {s["id"]: s.get("covered_by") for s in exp["sites"]}}
     for s in sites:
         r.cov["map_ranges"]["by_class"][s.get("class")] = r.cov["map_ranges"]["by_class"].get(s.get("class"), 0) + 1
+    # second static premise: no clock, environment, process, host, hidden map iteration, directory order, goroutine or address
+    # reaches the output other than through the listed (justified) sites
+    adiff, asites, aexp = c12.facts(r, "facts_ambient", EXPECT_AMBIENT, (), "")
+    if adiff and not (adiff["new_sites"] or adiff["changed_sites"] or adiff["load_errors"]) and asites is not None:
+        # a listed site that is gone only makes the premise easier to meet: the inventory is an upper bound
+        name, _, detail = r.obligations.pop()
+        r.obligations.append((name.replace(", and nothing listed is missing", " (listed sites that no longer exist are tolerated)"), True, detail))
+        r.notes.append("ambient sources no longer present: %s" % adiff["gone_sites"])
+        adiff = None
+    r.cov["ambient_sources"] = {"total": len(asites), "by_kind": {}, "status": {s["id"]: s.get("status") for s in aexp["sites"]}}
+    for s in asites:
+        r.cov["ambient_sources"]["by_kind"][s.get("kind")] = r.cov["ambient_sources"]["by_kind"].get(s.get("kind"), 0) + 1
     n = 4 if r.tier == "quick" else 80
     res, hits = dynamic(r, n)
+    if adiff and not hits:
+        r.violation("facts-ambient", dict(adiff, note="family determinism found no differing output among %d runs" % len(res["cases"])), False)
+    elif adiff:
+        r.notes.append("ambient-source inventory also broken: new=%d gone=%d" % (len(adiff["new_sites"]), len(adiff["gone_sites"])))
     if diff and not hits:
         r.violation("facts", dict(diff, note="family determinism found no differing output among %d runs" % len(res["cases"])), False)
     elif diff:
@@ -73,8 +90,9 @@ def run(r):
         "uniqueness of the sort keys (token/rule/mode names, import paths, state ids, mode indices) is a fact of C17/C19 and of the numbering code, not re-proved here",
         "diagnostics on stderr are not among the artefacts C13 names: two loops (AssignActions) report several errors in map order; no file is written in that case",
         "go/packages, go/types method order, Jet and gofmt are assumed to be functions of their inputs; only sampled by family determinism",
-        "other sources of nondeterminism (time, environment, goroutines, pointer-keyed ordering) have no syntactic site in the inventory: the generator starts no goroutine and "
-        "reads neither clock nor environment (grep-level observation, sampled dynamically)",
+        "other sources of nondeterminism (clock, environment, process, host, working directory, map iteration through maps.Keys/reflect/sync.Map, directory order, "
+        "goroutines/channels, addresses) are inventoried by family facts_ambient against expect/ambient_sources.json (regenerated on every run; 4 justified sites, none "
+        "reaches a generated file); a %v of a pointer or a map printed by fmt is not recognisable syntactically and is only sampled dynamically (fresh processes, another environment)",
     ]
     return r.finish(LEVEL,
                     "PARTIAL, level other. Proved (Lean, all lists and all permutations): sorting by a unique key, insert-only folds into sets/maps, the range heap's pop sequence and "
